@@ -726,6 +726,19 @@ theorem dfg_programs_edge_locality (enc : String) (cmds : List Cmd) (st' : Build
       (anc ≠ l.2.1 → ((l.1.1, (-1 : Int)), (anc, (-1 : Int))) ∈ linksList s) :=
   ((run_binv enc cmds {} st' hL binv_empty h).stores hid s hs).loc l hl hv hns
 
+/-- **Every program of the same sub-language joins order ports to order ports and other ports to other ports**: in
+    every HUGR it has built, a link leaves an order port (offset −1) exactly when it enters one.  So a state-order
+    edge never ends on a value, static or control-flow port and no value is ever wired out of (or into) an order port —
+    the "same kind at both ends" half of rule R4.kind for the order kind.  `_get_dataflow_type` refuses offset −1 of
+    every operation (`getDataflowType_not_order`), which is what keeps `n.out(-1)` from being recorded as a wire (the
+    clause seeded changes C13-6 / C13-8 attacked); `add_state_order` and the order link of a non-local wire use −1 on
+    both ends; the static links of `call` / `load` / `load_function` leave port 0. -/
+theorem dfg_programs_edge_kinds (enc : String) (cmds : List Cmd) (st' : BuildState)
+    (hL : ∀ c ∈ cmds, InL c) (h : Build.run enc {} cmds = .ok st')
+    (hid : Nat) (s : St) (hs : st'.getHugr hid = .ok s) (l : Port × Port) (hl : l ∈ linksList s) :
+    (l.1.2 = -1 ↔ l.2.2 = -1) :=
+  ((run_binv enc cmds {} st' hL binv_empty h).stores hid s hs).kind l hl
+
 /-- The same from any state that satisfies the invariant (programs continue each other). -/
 theorem dfg_programs_keep_invariant (enc : String) (cmds : List Cmd) (st st' : BuildState)
     (hL : ∀ c ∈ cmds, InL c) (hb : BInv st) (h : Build.run enc st cmds = .ok st') : BInv st' :=
